@@ -1,1 +1,1159 @@
-fn main() { unimplemented!() }
+//! C19 — time arithmetic, monotonic clock, sleep.
+//!
+//! Phase `arith` (engine E4, bounded-exhaustive): the full Cartesian boundary grid of
+//! normalised time values × Durations, closed once under the exact `t ± d`, through every
+//! public arithmetic / comparison operation of `tiny_std::time::{Instant, SystemTime,
+//! MonotonicInstant}`; reference = exact `i128` nanosecond arithmetic.  Nothing in this
+//! file depends on the build profile: the driver runs the same source with overflow checks
+//! on (an overflow inside the code under test is then a caught panic) and off (a wrapped
+//! value is then a wrong answer).
+//!
+//! Phase `clock` (SAMPLED, real time cannot be enumerated): consecutive readings of the
+//! monotonic clock never decrease; `sleep(d)` returns no earlier than `d` by the libc
+//! CLOCK_MONOTONIC stopwatch.
+//!
+//! How values are built (time.rs has no public constructor for two of the three types):
+//!   * `SystemTime`        — `SystemTime::from(TimeSpec)` (public, safe); read back by
+//!                           `transmute::<SystemTime, TimeSpec>` (single private field).
+//!   * `Instant`           — `transmute::<TimeSpec, Instant>` (struct with the single field
+//!                           `TimeSpec`, itself `repr(transparent)` over `__kernel_timespec`);
+//!                           read back through the public `AsRef<TimeSpec>`.
+//!   * `MonotonicInstant`  — `transmute::<TimeSpec, MonotonicInstant>`; read back through
+//!                           `as_instant().as_ref()`.
+//! `selfcheck()` verifies all three routes against the `Debug` rendering before any case runs.
+
+use common::*;
+use core::cmp::Ordering;
+use core::time::Duration;
+use rusl::platform::TimeSpec;
+use serde_json::{json, Value};
+use std::collections::BTreeSet;
+use tiny_std::time::{Instant, MonotonicInstant, SystemTime};
+
+const G: i128 = 1_000_000_000;
+
+// ---------------------------------------------------------------------------
+// plain operand values
+
+/// a time value: seconds, nanoseconds (normalised: 0 <= n < 10^9)
+#[derive(Clone, Copy, PartialEq, Eq, PartialOrd, Ord, Hash, Debug)]
+struct Tv {
+    s: i64,
+    n: i64,
+}
+/// a Duration
+#[derive(Clone, Copy, PartialEq, Eq, PartialOrd, Ord, Hash, Debug)]
+struct Dv {
+    s: u64,
+    n: u32,
+}
+
+fn tns(v: Tv) -> i128 {
+    v.s as i128 * G + v.n as i128
+}
+fn dns(d: Dv) -> i128 {
+    d.s as i128 * G + d.n as i128
+}
+fn dur(d: Dv) -> Duration {
+    Duration::new(d.s, d.n) // n < 10^9: no carry, cannot panic
+}
+fn dv(d: Duration) -> Dv {
+    Dv { s: d.as_secs(), n: d.subsec_nanos() }
+}
+fn show_t(v: Tv) -> String {
+    format!("({}s,{}ns)", v.s, v.n)
+}
+fn show_d(d: Dv) -> String {
+    format!("Duration({}s,{}ns)", d.s, d.n)
+}
+fn jt(v: Tv) -> Value {
+    json!([v.s.to_string(), v.n.to_string()])
+}
+fn jd(d: Dv) -> Value {
+    json!([d.s.to_string(), d.n.to_string()])
+}
+
+// ---------------------------------------------------------------------------
+// the three types behind one interface
+
+trait Mk: Copy + Ord + core::fmt::Debug + 'static {
+    const NAME: &'static str;
+    const TY: usize;
+    fn mk(v: Tv) -> Self;
+    fn raw(self) -> Tv;
+}
+
+trait TimeLike: Mk {
+    fn add_d(self, d: Duration) -> Option<Self>;
+    fn sub_d(self, d: Duration) -> Option<Self>;
+    fn sub_t(self, o: Self) -> Option<Duration>;
+    fn dur_since(self, o: Self) -> Option<Duration>;
+    fn since_unix(self) -> Duration {
+        unreachable!()
+    }
+}
+
+fn ts_tv(t: &TimeSpec) -> Tv {
+    Tv { s: t.seconds(), n: t.nanoseconds() }
+}
+
+impl Mk for Instant {
+    const NAME: &'static str = "Instant";
+    const TY: usize = 0;
+    fn mk(v: Tv) -> Self {
+        // no public constructor; layout checked by transmute (size) and selfcheck() (content)
+        unsafe { core::mem::transmute::<TimeSpec, Instant>(TimeSpec::new(v.s, v.n)) }
+    }
+    fn raw(self) -> Tv {
+        ts_tv(self.as_ref())
+    }
+}
+impl TimeLike for Instant {
+    fn add_d(self, d: Duration) -> Option<Self> {
+        self + d
+    }
+    fn sub_d(self, d: Duration) -> Option<Self> {
+        self - d
+    }
+    fn sub_t(self, o: Self) -> Option<Duration> {
+        self - o
+    }
+    fn dur_since(self, o: Self) -> Option<Duration> {
+        self.duration_since(o)
+    }
+}
+
+impl Mk for SystemTime {
+    const NAME: &'static str = "SystemTime";
+    const TY: usize = 1;
+    fn mk(v: Tv) -> Self {
+        SystemTime::from(TimeSpec::new(v.s, v.n))
+    }
+    fn raw(self) -> Tv {
+        ts_tv(&unsafe { core::mem::transmute::<SystemTime, TimeSpec>(self) })
+    }
+}
+impl TimeLike for SystemTime {
+    fn add_d(self, d: Duration) -> Option<Self> {
+        self + d
+    }
+    fn sub_d(self, d: Duration) -> Option<Self> {
+        self - d
+    }
+    fn sub_t(self, o: Self) -> Option<Duration> {
+        self - o
+    }
+    fn dur_since(self, o: Self) -> Option<Duration> {
+        self.duration_since(o)
+    }
+    fn since_unix(self) -> Duration {
+        self.duration_since_unix_time()
+    }
+}
+
+impl Mk for MonotonicInstant {
+    const NAME: &'static str = "MonotonicInstant";
+    const TY: usize = 2;
+    fn mk(v: Tv) -> Self {
+        unsafe { core::mem::transmute::<TimeSpec, MonotonicInstant>(TimeSpec::new(v.s, v.n)) }
+    }
+    fn raw(self) -> Tv {
+        ts_tv(self.as_instant().as_ref())
+    }
+}
+
+const TYPE_NAMES: [&str; 3] = ["Instant", "SystemTime", "MonotonicInstant"];
+
+/// The construction / read-back routes give exactly the requested representation.
+/// A failure here is a machinery failure (the harness no longer fits the sources), not a verdict.
+fn selfcheck() {
+    fn one<T: Mk>(v: Tv) {
+        let x = T::mk(v);
+        assert_eq!(x.raw(), v, "{}: construct/read-back round trip", T::NAME);
+        let dbg = format!("{x:?}");
+        assert!(
+            dbg.starts_with(T::NAME) && dbg.contains(&format!("tv_sec: {},", v.s)) && dbg.contains(&format!("tv_nsec: {} ", v.n)),
+            "{}: Debug rendering {dbg} does not show {v:?}",
+            T::NAME
+        );
+    }
+    for s in [0i64, 1, 5, -1, i64::MAX, i64::MIN, 0x0123_4567_89ab_cdef] {
+        for n in [0i64, 7, 999_999_999] {
+            let v = Tv { s, n };
+            one::<Instant>(v);
+            one::<SystemTime>(v);
+            one::<MonotonicInstant>(v);
+        }
+    }
+    assert_eq!(MonotonicInstant::ZERO.as_instant(), Instant::mk(Tv { s: 0, n: 0 }));
+    assert_eq!(core::mem::size_of::<TimeSpec>(), 16);
+}
+
+// ---------------------------------------------------------------------------
+// report context with cheap outcome counters
+
+const ADD: usize = 0;
+const SUBD: usize = 1;
+const SUB: usize = 2;
+const DSINCE: usize = 3;
+const UNIX: usize = 4;
+const ORD: usize = 5;
+const ID_ADD_SUB: usize = 6;
+const ID_ADD_DIFF: usize = 7;
+const ID_SUB_ADD: usize = 8;
+const AS_INSTANT: usize = 9;
+const CONST: usize = 10;
+const OPS: [&str; 11] = [
+    "add",
+    "sub-duration",
+    "sub",
+    "duration_since",
+    "duration_since_unix_time",
+    "ord",
+    "identity-add-sub",
+    "identity-add-diff",
+    "identity-sub-add",
+    "as_instant",
+    "constant",
+];
+/// how the operation reads in a description
+const OP_TEXT: [&str; 11] = ["t + d", "t - d", "a - b", "a.duration_since(b)", "t.duration_since_unix_time()", "a <=> b", "(t+d)-d", "(t+d)-t", "(t-d)+d", "m.as_instant()", "constant"];
+
+const SOME: usize = 0;
+const NONE_NEG: usize = 1;
+const NONE_OVF: usize = 2;
+const VIOL: usize = 3;
+const LESS: usize = 4;
+const EQUAL: usize = 5;
+const GREATER: usize = 6;
+const HOLDS: usize = 7;
+const VACUOUS: usize = 8;
+const NEG_SOME_EXACT: usize = 9;
+const NEG_SOME_INEXACT: usize = 10;
+const NEG_NONE_REPR: usize = 11;
+const NEG_NONE: usize = 12;
+const NEG_ORD_EXACT: usize = 13;
+const NEG_ORD_INEXACT: usize = 14;
+const EXACT: usize = 15;
+const NEG_RETURNED: usize = 16;
+const CLASSES: [&str; 17] = [
+    "some",
+    "none-negative",
+    "none-overflow",
+    "VIOLATION",
+    "less",
+    "equal",
+    "greater",
+    "holds",
+    "vacuous(intermediate-none)",
+    "negdomain-no-panic:some-exact",
+    "negdomain-no-panic:some-inexact",
+    "negdomain-no-panic:none-though-representable",
+    "negdomain-no-panic:none",
+    "negdomain-no-panic:ord-exact",
+    "negdomain-no-panic:ord-inexact",
+    "exact",
+    "negdomain-no-panic:returned",
+];
+
+struct Cx {
+    r: Report,
+    oc: [[[u64; CLASSES.len()]; OPS.len()]; 3],
+}
+
+impl Cx {
+    fn new() -> Self {
+        Cx { r: Report::new(), oc: [[[0; CLASSES.len()]; OPS.len()]; 3] }
+    }
+    #[inline]
+    fn case(&mut self) {
+        self.r.eval();
+        self.r.nontrivial_unique();
+    }
+    #[inline]
+    fn out(&mut self, ty: usize, op: usize, class: usize) {
+        self.oc[ty][op][class] += 1;
+    }
+    fn merge(&mut self, o: Cx) {
+        self.r.merge(o.r);
+        for t in 0..3 {
+            for op in 0..OPS.len() {
+                for c in 0..CLASSES.len() {
+                    self.oc[t][op][c] += o.oc[t][op][c];
+                }
+            }
+        }
+    }
+    fn finish(mut self) -> Report {
+        for t in 0..3 {
+            for op in 0..OPS.len() {
+                for c in 0..CLASSES.len() {
+                    if self.oc[t][op][c] > 0 {
+                        self.r.outcome_n(&format!("{}::{}:{}", TYPE_NAMES[t], OPS[op], CLASSES[c]), self.oc[t][op][c]);
+                    }
+                }
+            }
+        }
+        self.r
+    }
+    /// `C19:<Type>::<op>:<kind>` for operation failures, `C19:<Type>:<kind>` for identities / ordering
+    fn viol(&mut self, ty: usize, op: usize, key: String, desc: String, mut replay: Value) {
+        self.out(ty, op, VIOL);
+        replay["key"] = json!(key);
+        self.r.violation(&key, desc, replay);
+    }
+}
+
+fn key_op(ty: usize, op: usize, kind: &str) -> String {
+    format!("C19:{}::{}:{kind}", TYPE_NAMES[ty], OPS[op])
+}
+fn key_ty(ty: usize, kind: &str) -> String {
+    format!("C19:{}:{kind}", TYPE_NAMES[ty])
+}
+
+/// In fast mode the caller has wrapped the whole row in one `common::catch`; in slow mode
+/// (entered only after a row panicked, and for replays) every single call is caught so
+/// that the panic is attributed to the operation and operands.
+#[inline(always)]
+fn call<R>(slow: bool, f: impl FnOnce() -> R) -> Result<R, String> {
+    if slow {
+        catch(f)
+    } else {
+        Ok(f())
+    }
+}
+
+/// Run `body` for one row of the grid under `common::catch`; on a panic discard the row's
+/// partial results and re-run it with one `catch` per call of the code under test.
+fn guarded_row(cx: &mut Cx, body: impl Fn(&mut Cx, bool)) {
+    let mut row = Cx::new();
+    if catch(|| body(&mut row, false)).is_ok() {
+        cx.merge(row);
+        return;
+    }
+    let mut row = Cx::new();
+    body(&mut row, true);
+    cx.merge(row);
+}
+
+// ---------------------------------------------------------------------------
+// reference: exact integer arithmetic on nanoseconds
+
+#[derive(Clone, Copy, PartialEq, Debug)]
+enum Want<V> {
+    Some(V),
+    Negative,
+    Overflow,
+}
+
+/// a time value at or after the epoch/boot whose seconds fit `i64`
+fn want_time(total: i128) -> Want<Tv> {
+    if total < 0 {
+        return Want::Negative;
+    }
+    let s = total / G;
+    if s > i64::MAX as i128 {
+        return Want::Overflow;
+    }
+    Want::Some(Tv { s: s as i64, n: (total % G) as i64 })
+}
+fn want_dur(total: i128) -> Want<Dv> {
+    if total < 0 {
+        return Want::Negative;
+    }
+    let s = total / G;
+    if s > u64::MAX as i128 {
+        return Want::Overflow;
+    }
+    Want::Some(Dv { s: s as u64, n: (total % G) as u32 })
+}
+/// informational reference on the negative-seconds domain of SystemTime: any sign, seconds fit i64
+fn signed_time(total: i128) -> Option<Tv> {
+    let s = total.div_euclid(G);
+    i64::try_from(s).ok().map(|s| Tv { s, n: total.rem_euclid(G) as i64 })
+}
+
+fn show_want<V: Copy>(w: Want<V>, f: impl Fn(V) -> String) -> String {
+    match w {
+        Want::Some(v) => {
+            let s = f(v);
+            if s.starts_with('(') {
+                format!("Some{s}")
+            } else {
+                format!("Some({s})")
+            }
+        }
+        Want::Negative => "None (exact result is negative)".into(),
+        Want::Overflow => "None (exact result exceeds the representable seconds)".into(),
+    }
+}
+
+fn replay_td(ty: usize, op: usize, t: Tv, d: Dv) -> Value {
+    json!({"group": "td", "type": TYPE_NAMES[ty], "op": OPS[op], "t": jt(t), "d": jd(d)})
+}
+fn replay_tt(ty: usize, op: usize, a: Tv, b: Tv) -> Value {
+    json!({"group": "tt", "type": TYPE_NAMES[ty], "op": OPS[op], "a": jt(a), "b": jt(b)})
+}
+
+/// Oracle for an `Option<time>` result on the at-or-after-epoch domain.
+fn judge_time<T: TimeLike>(cx: &mut Cx, op: usize, t: Tv, d: Dv, got: &Result<Option<T>, String>, want: Want<Tv>) {
+    let ty = T::TY;
+    let text = || format!("{}{} {} {}", T::NAME, show_t(t), if op == ADD { "+" } else { "-" }, show_d(d));
+    match got {
+        Err(p) => cx.viol(ty, op, key_op(ty, op, "panic"), format!("{} panicked: {p}; exact result {}", text(), show_want(want, show_t)), replay_td(ty, op, t, d)),
+        Ok(Some(x)) => {
+            let g = x.raw();
+            if !(0..G as i64).contains(&g.n) {
+                cx.viol(ty, op, key_op(ty, op, "not-normalised"), format!("{} = Some{}: nanoseconds outside 0..10^9; exact result {}", text(), show_t(g), show_want(want, show_t)), replay_td(ty, op, t, d));
+                return;
+            }
+            match want {
+                Want::Some(w) if w == g => cx.out(ty, op, SOME),
+                Want::Some(_) => cx.viol(ty, op, key_op(ty, op, "wrong-result"), format!("{} = Some{}; exact result {}", text(), show_t(g), show_want(want, show_t)), replay_td(ty, op, t, d)),
+                _ => cx.viol(ty, op, key_op(ty, op, "some-for-unrepresentable"), format!("{} = Some{}; exact result {}", text(), show_t(g), show_want(want, show_t)), replay_td(ty, op, t, d)),
+            }
+        }
+        Ok(None) => match want {
+            Want::Negative => cx.out(ty, op, NONE_NEG),
+            Want::Overflow => cx.out(ty, op, NONE_OVF),
+            Want::Some(_) => cx.viol(ty, op, key_op(ty, op, "none-for-representable"), format!("{} = None; exact result {}", text(), show_want(want, show_t)), replay_td(ty, op, t, d)),
+        },
+    }
+}
+
+/// Oracle for an `Option<Duration>` difference on the at-or-after-epoch domain.
+fn judge_dur<T: TimeLike>(cx: &mut Cx, op: usize, a: Tv, b: Tv, got: &Result<Option<Duration>, String>, want: Want<Dv>) {
+    let ty = T::TY;
+    let text = || {
+        if op == SUB {
+            format!("{}{} - {}{}", T::NAME, show_t(a), T::NAME, show_t(b))
+        } else {
+            format!("{}{}.duration_since({})", T::NAME, show_t(a), show_t(b))
+        }
+    };
+    match got {
+        Err(p) => cx.viol(ty, op, key_op(ty, op, "panic"), format!("{} panicked: {p}; exact result {}", text(), show_want(want, show_d)), replay_tt(ty, op, a, b)),
+        Ok(Some(x)) => {
+            let g = dv(*x);
+            match want {
+                Want::Some(w) if w == g => cx.out(ty, op, SOME),
+                Want::Some(_) => cx.viol(ty, op, key_op(ty, op, "wrong-result"), format!("{} = Some({}); exact result {}", text(), show_d(g), show_want(want, show_d)), replay_tt(ty, op, a, b)),
+                _ => cx.viol(ty, op, key_op(ty, op, "some-for-unrepresentable"), format!("{} = Some({}); exact result {}", text(), show_d(g), show_want(want, show_d)), replay_tt(ty, op, a, b)),
+            }
+        }
+        Ok(None) => match want {
+            Want::Negative => cx.out(ty, op, NONE_NEG),
+            Want::Overflow => cx.out(ty, op, NONE_OVF),
+            Want::Some(_) => cx.viol(ty, op, key_op(ty, op, "none-for-representable"), format!("{} = None; exact result {}", text(), show_want(want, show_d)), replay_tt(ty, op, a, b)),
+        },
+    }
+}
+
+// ---------------------------------------------------------------------------
+// group "td": one time value and one Duration
+
+fn run_td<T: TimeLike>(cx: &mut Cx, t: Tv, d: Dv, slow: bool) {
+    if t.s < 0 {
+        return run_td_neg::<T>(cx, t, d, slow);
+    }
+    let ty = T::TY;
+    let tt = T::mk(t);
+    let dd = dur(d);
+    let add = call(slow, || tt.add_d(dd));
+    cx.case();
+    judge_time::<T>(cx, ADD, t, d, &add, want_time(tns(t) + dns(d)));
+    let sub = call(slow, || tt.sub_d(dd));
+    cx.case();
+    judge_time::<T>(cx, SUBD, t, d, &sub, want_time(tns(t) - dns(d)));
+
+    // identities of the statement, checked on the implementation's own intermediate results
+    // (t+d)-d = t
+    cx.r.eval();
+    if let Ok(Some(x)) = add {
+        match call(slow, || x.sub_d(dd)) {
+            Err(p) => cx.viol(ty, SUBD, key_op(ty, SUBD, "panic"), format!("{}{} - {} panicked: {p} (second step of (t+d)-d, t={})", T::NAME, show_t(x.raw()), show_d(d), show_t(t)), replay_td(ty, SUBD, x.raw(), d)),
+            Ok(None) => cx.out(ty, ID_ADD_SUB, VACUOUS),
+            Ok(Some(y)) => {
+                cx.r.nontrivial_unique();
+                if y.raw() == t {
+                    cx.out(ty, ID_ADD_SUB, HOLDS)
+                } else {
+                    cx.viol(ty, ID_ADD_SUB, key_ty(ty, "identity-add-sub"), format!("{} t={} d={}: t+d = {}, (t+d)-d = {} != t", T::NAME, show_t(t), show_d(d), show_t(x.raw()), show_t(y.raw())), replay_td(ty, ID_ADD_SUB, t, d));
+                }
+            }
+        }
+        // (t+d)-t = d
+        cx.r.eval();
+        match call(slow, || x.sub_t(tt)) {
+            Err(p) => cx.viol(ty, SUB, key_op(ty, SUB, "panic"), format!("{}{} - {}{} panicked: {p} (second step of (t+d)-t)", T::NAME, show_t(x.raw()), T::NAME, show_t(t)), replay_tt(ty, SUB, x.raw(), t)),
+            Ok(None) => cx.out(ty, ID_ADD_DIFF, VACUOUS),
+            Ok(Some(z)) => {
+                cx.r.nontrivial_unique();
+                if dv(z) == d {
+                    cx.out(ty, ID_ADD_DIFF, HOLDS)
+                } else {
+                    cx.viol(ty, ID_ADD_DIFF, key_ty(ty, "identity-add-diff"), format!("{} t={} d={}: t+d = {}, (t+d)-t = {} != d", T::NAME, show_t(t), show_d(d), show_t(x.raw()), show_d(dv(z))), replay_td(ty, ID_ADD_DIFF, t, d));
+                }
+            }
+        }
+    } else {
+        cx.out(ty, ID_ADD_SUB, VACUOUS);
+        cx.r.eval();
+        cx.out(ty, ID_ADD_DIFF, VACUOUS);
+    }
+    // (t-d)+d = t  (consequence of the stated exactness)
+    cx.r.eval();
+    if let Ok(Some(x)) = sub {
+        match call(slow, || x.add_d(dd)) {
+            Err(p) => cx.viol(ty, ADD, key_op(ty, ADD, "panic"), format!("{}{} + {} panicked: {p} (second step of (t-d)+d, t={})", T::NAME, show_t(x.raw()), show_d(d), show_t(t)), replay_td(ty, ADD, x.raw(), d)),
+            Ok(None) => cx.out(ty, ID_SUB_ADD, VACUOUS),
+            Ok(Some(y)) => {
+                cx.r.nontrivial_unique();
+                if y.raw() == t {
+                    cx.out(ty, ID_SUB_ADD, HOLDS)
+                } else {
+                    cx.viol(ty, ID_SUB_ADD, key_ty(ty, "identity-sub-add"), format!("{} t={} d={}: t-d = {}, (t-d)+d = {} != t", T::NAME, show_t(t), show_d(d), show_t(x.raw()), show_t(y.raw())), replay_td(ty, ID_SUB_ADD, t, d));
+                }
+            }
+        }
+    } else {
+        cx.out(ty, ID_SUB_ADD, VACUOUS);
+    }
+}
+
+/// SystemTime with negative seconds: the statement demands panic-freedom only; what was
+/// returned is classified against the signed exact result for information.
+fn run_td_neg<T: TimeLike>(cx: &mut Cx, t: Tv, d: Dv, slow: bool) {
+    let ty = T::TY;
+    let tt = T::mk(t);
+    let dd = dur(d);
+    for op in [ADD, SUBD] {
+        cx.case();
+        let got = call(slow, || if op == ADD { tt.add_d(dd) } else { tt.sub_d(dd) });
+        let exact = signed_time(if op == ADD { tns(t) + dns(d) } else { tns(t) - dns(d) });
+        match got {
+            Err(p) => cx.viol(ty, op, key_op(ty, op, "panic"), format!("{}{} {} {} panicked: {p}", T::NAME, show_t(t), if op == ADD { "+" } else { "-" }, show_d(d)), replay_td(ty, op, t, d)),
+            Ok(Some(x)) => cx.out(ty, op, if Some(x.raw()) == exact { NEG_SOME_EXACT } else { NEG_SOME_INEXACT }),
+            Ok(None) => cx.out(ty, op, if exact.is_some() { NEG_NONE_REPR } else { NEG_NONE }),
+        }
+    }
+}
+
+// ---------------------------------------------------------------------------
+// group "tt": two time values
+
+type OrdObs = (Ordering, Option<Ordering>, [bool; 6]);
+
+#[inline]
+fn observe_ord<T: Mk>(a: T, b: T) -> OrdObs {
+    (a.cmp(&b), a.partial_cmp(&b), [a < b, a <= b, a > b, a >= b, a == b, a != b])
+}
+fn expected_ord(e: Ordering) -> OrdObs {
+    (e, Some(e), [e == Ordering::Less, e != Ordering::Greater, e == Ordering::Greater, e != Ordering::Less, e == Ordering::Equal, e != Ordering::Equal])
+}
+
+fn judge_ord<T: Mk>(cx: &mut Cx, a: Tv, b: Tv, got: &Result<OrdObs, String>) {
+    let ty = T::TY;
+    let e = tns(a).cmp(&tns(b));
+    match got {
+        Err(p) => cx.viol(ty, ORD, key_op(ty, ORD, "panic"), format!("comparing {}{} with {} panicked: {p}", T::NAME, show_t(a), show_t(b)), replay_tt(ty, ORD, a, b)),
+        Ok(o) if *o == expected_ord(e) => cx.out(ty, ORD, match e {
+            Ordering::Less => LESS,
+            Ordering::Equal => EQUAL,
+            Ordering::Greater => GREATER,
+        }),
+        Ok(o) => cx.viol(
+            ty,
+            ORD,
+            key_ty(ty, "ord-disagrees"),
+            format!("{} a={} b={}: (cmp, partial_cmp, [<,<=,>,>=,==,!=]) = {o:?} but the exact difference a-b is {e:?} ({} ns)", T::NAME, show_t(a), show_t(b), tns(a) - tns(b)),
+            replay_tt(ty, ORD, a, b),
+        ),
+    }
+}
+
+fn run_tt<T: TimeLike>(cx: &mut Cx, a: Tv, b: Tv, slow: bool) {
+    if a.s < 0 || b.s < 0 {
+        return run_tt_neg::<T>(cx, a, b, slow);
+    }
+    let ty = T::TY;
+    let (ta, tb) = (T::mk(a), T::mk(b));
+    let want = want_dur(tns(a) - tns(b));
+    let sub = call(slow, || ta.sub_t(tb));
+    cx.case();
+    judge_dur::<T>(cx, SUB, a, b, &sub, want);
+    let ds = call(slow, || ta.dur_since(tb));
+    cx.case();
+    judge_dur::<T>(cx, DSINCE, a, b, &ds, want);
+    let ord = call(slow, || observe_ord(ta, tb));
+    cx.case();
+    judge_ord::<T>(cx, a, b, &ord);
+    // "ordering agrees with subtraction": the implementation's own a-b against its own a<=>b
+    if let (Ok(s), Ok(o)) = (&sub, &ord) {
+        let ge = o.0 != Ordering::Less;
+        let eq = o.0 == Ordering::Equal;
+        if s.is_some() != ge || (*s == Some(Duration::ZERO)) != eq {
+            cx.viol(
+                ty,
+                ORD,
+                key_ty(ty, "ord-disagrees-with-sub"),
+                format!("{} a={} b={}: a.cmp(b) = {:?} but a - b = {:?}", T::NAME, show_t(a), show_t(b), o.0, s.map(dv)),
+                replay_tt(ty, ORD, a, b),
+            );
+        }
+    }
+}
+
+fn run_tt_neg<T: TimeLike>(cx: &mut Cx, a: Tv, b: Tv, slow: bool) {
+    let ty = T::TY;
+    let (ta, tb) = (T::mk(a), T::mk(b));
+    let exact = match want_dur(tns(a) - tns(b)) {
+        Want::Some(d) => Some(d),
+        _ => None,
+    };
+    for op in [SUB, DSINCE] {
+        cx.case();
+        match call(slow, || if op == SUB { ta.sub_t(tb) } else { ta.dur_since(tb) }) {
+            Err(p) => cx.viol(ty, op, key_op(ty, op, "panic"), format!("{} on {}{} and {} panicked: {p}", OP_TEXT[op], T::NAME, show_t(a), show_t(b)), replay_tt(ty, op, a, b)),
+            Ok(Some(x)) => cx.out(ty, op, if Some(dv(x)) == exact { NEG_SOME_EXACT } else { NEG_SOME_INEXACT }),
+            Ok(None) => cx.out(ty, op, if exact.is_some() { NEG_NONE_REPR } else { NEG_NONE }),
+        }
+    }
+    cx.case();
+    match call(slow, || observe_ord(ta, tb)) {
+        Err(p) => cx.viol(ty, ORD, key_op(ty, ORD, "panic"), format!("comparing {}{} with {} panicked: {p}", T::NAME, show_t(a), show_t(b)), replay_tt(ty, ORD, a, b)),
+        Ok(o) => cx.out(ty, ORD, if o == expected_ord(tns(a).cmp(&tns(b))) { NEG_ORD_EXACT } else { NEG_ORD_INEXACT }),
+    }
+}
+
+// ---------------------------------------------------------------------------
+// unary groups
+
+fn run_unix(cx: &mut Cx, t: Tv, slow: bool) {
+    let ty = SystemTime::TY;
+    let st = SystemTime::mk(t);
+    cx.case();
+    let got = call(slow, || st.since_unix());
+    let replay = || json!({"group": "unix", "type": "SystemTime", "op": OPS[UNIX], "t": jt(t)});
+    match got {
+        Err(p) => cx.viol(ty, UNIX, key_op(ty, UNIX, "panic"), format!("SystemTime{}.duration_since_unix_time() panicked: {p}", show_t(t)), replay()),
+        Ok(g) => {
+            let want = Dv { s: t.s as u64, n: t.n as u32 };
+            if t.s < 0 {
+                // only panic-freedom is demanded here
+                cx.out(ty, UNIX, NEG_RETURNED);
+            } else if dv(g) == want {
+                cx.out(ty, UNIX, EXACT);
+            } else {
+                cx.viol(ty, UNIX, key_op(ty, UNIX, "wrong-result"), format!("SystemTime{}.duration_since_unix_time() = {}; exact result {}", show_t(t), show_d(dv(g)), show_d(want)), replay());
+            }
+        }
+    }
+}
+
+fn run_mono_ord(cx: &mut Cx, a: Tv, b: Tv, slow: bool) {
+    let (ma, mb) = (MonotonicInstant::mk(a), MonotonicInstant::mk(b));
+    let ord = call(slow, || observe_ord(ma, mb));
+    cx.case();
+    judge_ord::<MonotonicInstant>(cx, a, b, &ord);
+}
+
+fn run_mono_conv(cx: &mut Cx, t: Tv, slow: bool) {
+    let ty = MonotonicInstant::TY;
+    let m = MonotonicInstant::mk(t);
+    cx.case();
+    let replay = || json!({"group": "mono-conv", "type": "MonotonicInstant", "op": OPS[AS_INSTANT], "t": jt(t)});
+    match call(slow, || m.as_instant()) {
+        Err(p) => cx.viol(ty, AS_INSTANT, key_op(ty, AS_INSTANT, "panic"), format!("MonotonicInstant{}.as_instant() panicked: {p}", show_t(t)), replay()),
+        Ok(i) if Mk::raw(i) == t => cx.out(ty, AS_INSTANT, EXACT),
+        Ok(i) => cx.viol(ty, AS_INSTANT, key_op(ty, AS_INSTANT, "wrong-result"), format!("MonotonicInstant{}.as_instant() = Instant{}", show_t(t), show_t(Mk::raw(i))), replay()),
+    }
+}
+
+fn run_constants(cx: &mut Cx) {
+    cx.case();
+    match catch(|| tiny_std::time::UNIX_TIME.raw()) {
+        Ok(Tv { s: 0, n: 0 }) => cx.out(1, CONST, EXACT),
+        other => cx.viol(1, CONST, key_op(1, CONST, "wrong-result"), format!("UNIX_TIME is {other:?}, not (0s,0ns)"), json!({"group": "const"})),
+    }
+    cx.case();
+    match catch(|| MonotonicInstant::ZERO.raw()) {
+        Ok(Tv { s: 0, n: 0 }) => cx.out(2, CONST, EXACT),
+        other => cx.viol(2, CONST, key_op(2, CONST, "wrong-result"), format!("MonotonicInstant::ZERO is {other:?}, not (0s,0ns)"), json!({"group": "const"})),
+    }
+}
+
+// ---------------------------------------------------------------------------
+// the grid
+
+struct Grid {
+    secs: Vec<i64>,
+    neg_secs: Vec<i64>,
+    nanos: Vec<i64>,
+    dsecs: Vec<u64>,
+    /// grid time values at or after the epoch, simplest first
+    v0: Vec<Tv>,
+    /// grid time values with negative seconds (SystemTime panic-freedom)
+    vneg: Vec<Tv>,
+    d: Vec<Dv>,
+    /// v0 followed by every exact t+d / t-d (t in v0, d in d) that is a representable time value
+    v1: Vec<Tv>,
+}
+
+fn dedup_keep_order<T: Ord + Copy>(v: Vec<T>) -> Vec<T> {
+    let mut seen = BTreeSet::new();
+    v.into_iter().filter(|x| seen.insert(*x)).collect()
+}
+
+fn grid(thorough: bool) -> Grid {
+    const M: i64 = i64::MAX;
+    let (secs, neg_secs, nanos, dsecs): (Vec<i64>, Vec<i64>, Vec<i64>, Vec<u64>) = if !thorough {
+        (
+            vec![0, 1, 2, 1_000_000_000, M - 2, M - 1, M],
+            vec![-1, -2, i64::MIN + 2, i64::MIN + 1, i64::MIN],
+            vec![0, 1, 2, 499_999_999, 999_999_998, 999_999_999],
+            vec![0, 1, 2, M as u64 - 1, M as u64, M as u64 + 1, u64::MAX - 1, u64::MAX],
+        )
+    } else {
+        // +-3 neighbourhoods of every constant a plausible implementation compares with
+        let mut s: Vec<i64> = vec![0, 1, 2, 3];
+        for p in [1_000_000_000, 1i64 << 31, 1 << 32, M / 1_000_000_000, 1 << 62] {
+            s.extend(p - 3..=p + 3);
+        }
+        s.extend([M - 3, M - 2, M - 1, M]);
+        let mut ng: Vec<i64> = vec![-1, -2, -3, -1_000_000_000, -(1 << 31), -(1 << 31) - 1, -(1 << 32)];
+        ng.extend([i64::MIN + 3, i64::MIN + 2, i64::MIN + 1, i64::MIN]);
+        let n: Vec<i64> = vec![0, 1, 2, 3, 499_999_998, 499_999_999, 500_000_000, 500_000_001, 500_000_002, 999_999_996, 999_999_997, 999_999_998, 999_999_999];
+        let mut ds: Vec<u64> = vec![0, 1, 2, 3];
+        for p in [1_000_000_000, 1u64 << 31, 1 << 32, M as u64 / 1_000_000_000, u64::MAX / 1_000_000_000, 1 << 62] {
+            ds.extend(p - 3..=p + 3);
+        }
+        ds.extend((M as u64 - 3)..=(M as u64 + 4));
+        ds.extend([u64::MAX - 3, u64::MAX - 2, u64::MAX - 1, u64::MAX]);
+        (s, ng, n, ds)
+    };
+    let secs = dedup_keep_order(secs);
+    let neg_secs = dedup_keep_order(neg_secs);
+    let dsecs = dedup_keep_order(dsecs);
+    let cart = |ss: &[i64]| -> Vec<Tv> { ss.iter().flat_map(|&s| nanos.iter().map(move |&n| Tv { s, n })).collect() };
+    let v0 = cart(&secs);
+    let vneg = cart(&neg_secs);
+    let d: Vec<Dv> = dsecs.iter().flat_map(|&s| nanos.iter().map(move |&n| Dv { s, n: n as u32 })).collect();
+    let base: BTreeSet<Tv> = v0.iter().copied().collect();
+    let mut derived = BTreeSet::new();
+    for &t in &v0 {
+        for &dd in &d {
+            for total in [tns(t) + dns(dd), tns(t) - dns(dd)] {
+                if let Want::Some(x) = want_time(total) {
+                    if !base.contains(&x) {
+                        derived.insert(x);
+                    }
+                }
+            }
+        }
+    }
+    let mut v1 = v0.clone();
+    v1.extend(derived);
+    Grid { secs, neg_secs, nanos, dsecs, v0, vneg, d, v1 }
+}
+
+#[derive(Clone, Copy, Debug)]
+enum Job {
+    /// rows lo..hi of v1, every Duration
+    Td { ty: usize, lo: usize, hi: usize },
+    /// rows lo..hi of v1 against every v1 value (all ordered pairs)
+    Tt { ty: usize, lo: usize, hi: usize },
+    Unix,
+    Neg,
+    MonoOrd { lo: usize, hi: usize },
+    MonoConv,
+}
+
+fn run_job(g: &Grid, job: Job) -> Report {
+    let mut cx = Cx::new();
+    match job {
+        Job::Td { ty, lo, hi } => {
+            for &t in &g.v1[lo..hi] {
+                guarded_row(&mut cx, |cx, slow| {
+                    for &d in &g.d {
+                        match ty {
+                            0 => run_td::<Instant>(cx, t, d, slow),
+                            _ => run_td::<SystemTime>(cx, t, d, slow),
+                        }
+                    }
+                });
+            }
+        }
+        Job::Tt { ty, lo, hi } => {
+            for &a in &g.v1[lo..hi] {
+                guarded_row(&mut cx, |cx, slow| {
+                    for &b in &g.v1 {
+                        match ty {
+                            0 => run_tt::<Instant>(cx, a, b, slow),
+                            _ => run_tt::<SystemTime>(cx, a, b, slow),
+                        }
+                    }
+                });
+            }
+        }
+        Job::Unix => {
+            guarded_row(&mut cx, |cx, slow| {
+                for &t in g.v1.iter().chain(&g.vneg) {
+                    run_unix(cx, t, slow);
+                }
+            });
+            run_constants(&mut cx);
+        }
+        Job::Neg => {
+            for &t in &g.vneg {
+                guarded_row(&mut cx, |cx, slow| {
+                    for &d in &g.d {
+                        run_td::<SystemTime>(cx, t, d, slow);
+                    }
+                    for &b in g.v0.iter().chain(&g.vneg) {
+                        run_tt::<SystemTime>(cx, t, b, slow);
+                    }
+                    for &a in &g.v0 {
+                        run_tt::<SystemTime>(cx, a, t, slow);
+                    }
+                });
+            }
+        }
+        Job::MonoOrd { lo, hi } => {
+            for &a in &g.v1[lo..hi] {
+                guarded_row(&mut cx, |cx, slow| {
+                    for &b in &g.v1 {
+                        run_mono_ord(cx, a, b, slow);
+                    }
+                });
+            }
+        }
+        Job::MonoConv => {
+            guarded_row(&mut cx, |cx, slow| {
+                for &t in &g.v1 {
+                    run_mono_conv(cx, t, slow);
+                }
+            });
+        }
+    }
+    cx.finish()
+}
+
+fn arith(args: &Args) -> Report {
+    selfcheck();
+    let g = grid(args.thorough);
+    let n1 = g.v1.len();
+    let chunk = (n1 / 96).max(8);
+    let mut jobs = Vec::new();
+    for ty in 0..2 {
+        let mut lo = 0;
+        while lo < n1 {
+            jobs.push(Job::Td { ty, lo, hi: (lo + chunk).min(n1) });
+            lo += chunk;
+        }
+        let mut lo = 0;
+        while lo < n1 {
+            jobs.push(Job::Tt { ty, lo, hi: (lo + chunk).min(n1) });
+            lo += chunk;
+        }
+        if ty == 1 {
+            jobs.push(Job::Unix);
+            jobs.push(Job::Neg);
+        }
+    }
+    let mut lo = 0;
+    while lo < n1 {
+        jobs.push(Job::MonoOrd { lo, hi: (lo + 4 * chunk).min(n1) });
+        lo += 4 * chunk;
+    }
+    jobs.push(Job::MonoConv);
+
+    let mut r = par_items(jobs.len(), args.seed, |i| run_job(&g, jobs[i]));
+
+    // a handful of written-out cases (re-executed here, each call caught)
+    let pick_t = [g.v0[0], g.v0[g.nanos.len() - 1], *g.v0.last().unwrap(), g.v1[n1 / 2]];
+    let pick_d = [g.d[1], g.d[g.nanos.len() * 2 - 1], *g.d.last().unwrap()];
+    for (i, &t) in pick_t.iter().enumerate() {
+        let d = pick_d[i % pick_d.len()];
+        let x = catch(|| Instant::mk(t).add_d(dur(d)).map(Mk::raw));
+        r.sample(json!({"type": "Instant", "op": "t + d", "t": show_t(t), "d": show_d(d), "got": format!("{x:?}"), "exact": show_want(want_time(tns(t) + dns(d)), show_t)}));
+        let y = catch(|| SystemTime::mk(t).sub_d(dur(d)).map(Mk::raw));
+        r.sample(json!({"type": "SystemTime", "op": "t - d", "t": show_t(t), "d": show_d(d), "got": format!("{y:?}"), "exact": show_want(want_time(tns(t) - dns(d)), show_t)}));
+        let b = g.v0[(i * 7 + 3) % g.v0.len()];
+        let z = catch(|| Instant::mk(t).sub_t(Instant::mk(b)).map(dv));
+        r.sample(json!({"type": "Instant", "op": "a - b", "a": show_t(t), "b": show_t(b), "got": format!("{z:?}"), "exact": show_want(want_dur(tns(t) - tns(b)), show_d)}));
+    }
+
+    r.rule = format!(
+        "EXHAUSTIVE over a stated boundary grid (no sampling). V0 = seconds {{{} values}} x nanoseconds {{{} values}} (all normalised, at or after the epoch/boot); \
+         D = Duration seconds {{{} values}} x the same nanoseconds; V1 = V0 plus every exact t+d and t-d (t in V0, d in D) that is itself a representable time value ({} values). \
+         For Instant and for SystemTime: every (t in V1, d in D) through `t + d`, `t - d` and the identities (t+d)-d=t, (t+d)-t=d, (t-d)+d=t; every ordered pair (a, b) in V1 x V1 \
+         through `a - b`, duration_since, and cmp/partial_cmp/<,<=,>,>=,==,!=, plus agreement of the implementation's own cmp with its own a-b; SystemTime::duration_since_unix_time for every t in V1; \
+         MonotonicInstant: the same comparison set on the same pairs and as_instant() on every t in V1. Reference: exact i128 nanosecond arithmetic; a result must be Some(exact, normalised) when the exact \
+         result is >= 0 and its seconds fit i64 (u64 for a Duration), None otherwise. SystemTime values with negative seconds ({} values; against every d in D and every value of V0 and of themselves, both orders): \
+         panic-freedom only, what is returned is classified (outcomes negdomain-no-panic:*) but never judged. Every (type, operation, operand tuple) is generated exactly once; an identity counts as non-trivial only when \
+         all its intermediate results are Some. Every call of the code under test runs under common::catch (one catch per grid row; a row that panics is re-run with one catch per call for attribution).",
+        g.secs.len(),
+        g.nanos.len(),
+        g.dsecs.len(),
+        n1,
+        g.vneg.len()
+    );
+    r.bound("seconds", json!(g.secs.iter().map(|s| s.to_string()).collect::<Vec<_>>()));
+    r.bound("negative_seconds_systemtime", json!(g.neg_secs.iter().map(|s| s.to_string()).collect::<Vec<_>>()));
+    r.bound("nanoseconds", json!(g.nanos));
+    r.bound("duration_seconds", json!(g.dsecs.iter().map(|s| s.to_string()).collect::<Vec<_>>()));
+    r.bound("time_values_V0", g.v0.len());
+    r.bound("time_values_V1_closure", n1);
+    r.bound("durations", g.d.len());
+    r.bound("overflow_checks_in_this_build(observed)", catch(|| std::hint::black_box(i32::MAX) + std::hint::black_box(1)).is_err());
+    r.note("time.rs exposes no checked_add/checked_sub methods: `+ Duration`, `- Duration` and `a - b` are operator impls returning Option, so there is no operator with a documented panic; every panic is a violation");
+    r.note("Instant and MonotonicInstant have no public constructor: values are built by transmute from rusl::platform::TimeSpec (single-field wrappers) and verified by a start-up self-check against AsRef<TimeSpec> and the Debug rendering");
+    r.note("elapsed() of all three types reads the clock and is exercised in phase `clock`, not here");
+    r
+}
+
+// ---------------------------------------------------------------------------
+// phase clock (SAMPLED)
+
+fn libc_mono() -> i128 {
+    let mut ts: libc::timespec = unsafe { core::mem::zeroed() };
+    let rc = unsafe { libc::clock_gettime(libc::CLOCK_MONOTONIC, &mut ts) };
+    assert_eq!(rc, 0);
+    ts.tv_sec as i128 * G + ts.tv_nsec as i128
+}
+
+fn readings(r: &mut Report, name: &str, n: usize, now: &dyn Fn(usize) -> Tv) {
+    let mut prev: Option<Tv> = None;
+    for i in 0..n {
+        r.eval();
+        let cur = match catch(|| now(i)) {
+            Ok(c) => c,
+            Err(p) => {
+                r.violation(&format!("C19:{name}:panic"), format!("{name}: reading #{i} panicked: {p}"), json!({"group": "clock", "what": name}));
+                continue;
+            }
+        };
+        if let Some(p) = prev {
+            r.nontrivial_unique();
+            match tns(cur).cmp(&tns(p)) {
+                Ordering::Less => {
+                    r.outcome(&format!("{name}:DECREASED"));
+                    r.violation(&format!("C19:{name}:decreased"), format!("{name}: reading #{i} = {} after {}", show_t(cur), show_t(p)), json!({"group": "clock", "what": name}));
+                }
+                Ordering::Equal => r.outcome(&format!("{name}:equal")),
+                Ordering::Greater => r.outcome(&format!("{name}:increased")),
+            }
+        }
+        prev = Some(cur);
+    }
+}
+
+static SIGNALS_SEEN: std::sync::atomic::AtomicUsize = std::sync::atomic::AtomicUsize::new(0);
+extern "C" fn on_usr1(_: libc::c_int) {
+    SIGNALS_SEEN.fetch_add(1, std::sync::atomic::Ordering::SeqCst);
+}
+
+fn sleep_trial(r: &mut Report, d: Duration, label: &str) {
+    r.eval();
+    r.nontrivial_unique();
+    let t0 = libc_mono();
+    let res = catch(|| tiny_std::thread::sleep(d));
+    let t1 = libc_mono();
+    let elapsed = t1 - t0;
+    let how = match &res {
+        Ok(Ok(())) => "ok".to_string(),
+        Ok(Err(e)) => format!("err({e:?})"),
+        Err(p) => format!("panic({p})"),
+    };
+    r.outcome(&format!("{label}({d:?}):{}", how.split('(').next().unwrap()));
+    if elapsed < d.as_nanos() as i128 {
+        r.violation("C19:sleep:returned-early", format!("sleep({d:?}) [{label}] came back ({how}) after {elapsed} ns by CLOCK_MONOTONIC"), json!({"group": "clock", "what": "sleep", "nanos": d.as_nanos().to_string()}));
+    }
+}
+
+fn clock(_args: &Args) -> Report {
+    selfcheck();
+    let mut r = Report::new();
+    const N: usize = 100_000;
+    readings(&mut r, "Instant::now", N, &|_| Instant::now().raw());
+    readings(&mut r, "MonotonicInstant::now", N, &|_| MonotonicInstant::now().raw());
+    readings(&mut r, "rusl::clock_get_monotonic_time", N, &|_| ts_tv(&rusl::time::clock_get_monotonic_time()));
+    readings(&mut r, "interleaved(Instant,MonotonicInstant,rusl)", N, &|i| match i % 3 {
+        0 => Instant::now().raw(),
+        1 => MonotonicInstant::now().raw(),
+        _ => ts_tv(&rusl::time::clock_get_monotonic_time()),
+    });
+    // elapsed() of a past reading: Some, and never decreasing
+    {
+        let i0 = Instant::now();
+        let m0 = MonotonicInstant::now();
+        let s0 = SystemTime::now();
+        let mut prev = (Duration::ZERO, Duration::ZERO);
+        for k in 0..10_000 {
+            r.eval();
+            r.nontrivial_unique();
+            match catch(|| (i0.elapsed(), m0.elapsed(), s0.elapsed())) {
+                Err(p) => r.violation("C19:elapsed:panic", format!("elapsed() call #{k} panicked: {p}"), json!({"group": "clock", "what": "elapsed"})),
+                Ok((ie, me, se)) => {
+                    match ie {
+                        None => r.violation("C19:Instant::elapsed:none-for-past-instant", format!("Instant::elapsed() of an earlier reading returned None (call #{k})"), json!({"group": "clock", "what": "elapsed"})),
+                        Some(e) => {
+                            if e < prev.0 {
+                                r.violation("C19:Instant::elapsed:decreased", format!("Instant::elapsed() went from {:?} to {e:?}", prev.0), json!({"group": "clock", "what": "elapsed"}));
+                            }
+                            prev.0 = e;
+                        }
+                    }
+                    if me < prev.1 {
+                        r.violation("C19:MonotonicInstant::elapsed:decreased", format!("MonotonicInstant::elapsed() went from {:?} to {me:?}", prev.1), json!({"group": "clock", "what": "elapsed"}));
+                    }
+                    prev.1 = me;
+                    // the wall clock may be stepped: only its class is recorded
+                    r.outcome(if se.is_some() { "SystemTime::elapsed:some" } else { "SystemTime::elapsed:none(clock stepped back)" });
+                    r.outcome("elapsed:non-decreasing");
+                }
+            }
+        }
+    }
+    // sleep against the libc stopwatch
+    for (d, reps) in [(Duration::ZERO, 200), (Duration::from_micros(1), 200), (Duration::from_millis(1), 30), (Duration::from_millis(20), 8)] {
+        for _ in 0..reps {
+            sleep_trial(&mut r, d, "sleep");
+        }
+    }
+    // sleep interrupted by real signals (handler installed without SA_RESTART; nanosleep reports EINTR + remainder)
+    unsafe {
+        let mut sa: libc::sigaction = core::mem::zeroed();
+        sa.sa_sigaction = on_usr1 as *const () as usize;
+        libc::sigaction(libc::SIGUSR1, &sa, core::ptr::null_mut());
+    }
+    let me = unsafe { libc::pthread_self() } as usize;
+    for _ in 0..5 {
+        let before = SIGNALS_SEEN.load(std::sync::atomic::Ordering::SeqCst);
+        let h = std::thread::spawn(move || {
+            for _ in 0..3 {
+                std::thread::sleep(std::time::Duration::from_millis(4));
+                unsafe { libc::pthread_kill(me as libc::pthread_t, libc::SIGUSR1) };
+            }
+        });
+        sleep_trial(&mut r, Duration::from_millis(20), "sleep-with-signals");
+        let seen = SIGNALS_SEEN.load(std::sync::atomic::Ordering::SeqCst) - before;
+        h.join().unwrap();
+        r.outcome(&format!("sleep-with-signals:handlers-run-during-sleep={}", seen.min(3)));
+    }
+    unsafe {
+        libc::signal(libc::SIGUSR1, libc::SIG_DFL);
+    }
+    r.sample(json!({"what": "Instant::now", "reading": show_t(Instant::now().raw()), "libc CLOCK_MONOTONIC ns": libc_mono().to_string()}));
+    r.sample(json!({"what": "sleep", "durations": ["0", "1us", "1ms", "20ms", "20ms with 3 SIGUSR1 at 4 ms spacing"]}));
+    r.rule = format!(
+        "SAMPLED, not exhaustive (real time cannot be enumerated; the guarantee is the kernel's): {N} consecutive readings each of Instant::now, MonotonicInstant::now, rusl clock_get_monotonic_time and of the three interleaved \
+         must never decrease (exact (sec,nsec) comparison); 10000 successive elapsed() of one earlier Instant/MonotonicInstant must be Some and never decrease; tiny_std::thread::sleep(d) for d in {{0, 1us, 1ms, 20ms}} \
+         (200/200/30/8 repetitions) and 5 x sleep(20ms) interrupted by three real SIGUSR1 must come back no earlier than d by libc clock_gettime(CLOCK_MONOTONIC) read before and after. \
+         A case is one reading compared with its predecessor, or one sleep. NOT covered here: the exhaustive virtual-clock enumeration of EINTR scripts for sleep (needs the syscall seam S2, built separately)."
+    );
+    r.bound("readings_per_api", N);
+    r.bound("sleep_durations_ns", json!([0, 1_000, 1_000_000, 20_000_000]));
+    r.exhaustive = false;
+    r.note("phase clock is sampled by nature; the exhaustive part of C19 is phase arith");
+    r
+}
+
+// ---------------------------------------------------------------------------
+// replay
+
+fn parse_t(v: &Value) -> Tv {
+    Tv { s: v[0].as_str().expect("seconds as string").parse().expect("i64 seconds"), n: v[1].as_str().expect("nanos as string").parse().expect("i64 nanos") }
+}
+fn parse_d(v: &Value) -> Dv {
+    Dv { s: v[0].as_str().expect("seconds as string").parse().expect("u64 seconds"), n: v[1].as_str().expect("nanos as string").parse().expect("u32 nanos") }
+}
+
+fn replay(v: &Value) -> Report {
+    selfcheck();
+    let ty = v["type"].as_str().unwrap_or("");
+    let group = v["group"].as_str().unwrap_or("");
+    println!("replaying {v}");
+    let mut cx = Cx::new();
+    match group {
+        "td" => {
+            let (t, d) = (parse_t(&v["t"]), parse_d(&v["d"]));
+            match ty {
+                "Instant" => {
+                    println!("  t + d = {:?}", catch(|| Instant::mk(t).add_d(dur(d)).map(Mk::raw)));
+                    println!("  t - d = {:?}", catch(|| Instant::mk(t).sub_d(dur(d)).map(Mk::raw)));
+                    run_td::<Instant>(&mut cx, t, d, true)
+                }
+                _ => {
+                    println!("  t + d = {:?}", catch(|| SystemTime::mk(t).add_d(dur(d)).map(Mk::raw)));
+                    println!("  t - d = {:?}", catch(|| SystemTime::mk(t).sub_d(dur(d)).map(Mk::raw)));
+                    run_td::<SystemTime>(&mut cx, t, d, true)
+                }
+            }
+            println!("  exact t + d: {}", show_want(want_time(tns(t) + dns(d)), show_t));
+            println!("  exact t - d: {}", show_want(want_time(tns(t) - dns(d)), show_t));
+        }
+        "tt" => {
+            let (a, b) = (parse_t(&v["a"]), parse_t(&v["b"]));
+            match ty {
+                "Instant" => {
+                    println!("  a - b = {:?}", catch(|| Instant::mk(a).sub_t(Instant::mk(b)).map(dv)));
+                    println!("  a <=> b = {:?}", catch(|| observe_ord(Instant::mk(a), Instant::mk(b))));
+                    run_tt::<Instant>(&mut cx, a, b, true)
+                }
+                "SystemTime" => {
+                    println!("  a - b = {:?}", catch(|| SystemTime::mk(a).sub_t(SystemTime::mk(b)).map(dv)));
+                    println!("  a <=> b = {:?}", catch(|| observe_ord(SystemTime::mk(a), SystemTime::mk(b))));
+                    run_tt::<SystemTime>(&mut cx, a, b, true)
+                }
+                _ => {
+                    println!("  a <=> b = {:?}", catch(|| observe_ord(MonotonicInstant::mk(a), MonotonicInstant::mk(b))));
+                    run_mono_ord(&mut cx, a, b, true)
+                }
+            }
+            println!("  exact a - b: {}", show_want(want_dur(tns(a) - tns(b)), show_d));
+        }
+        "unix" => run_unix(&mut cx, parse_t(&v["t"]), true),
+        "mono-conv" => run_mono_conv(&mut cx, parse_t(&v["t"]), true),
+        "const" => run_constants(&mut cx),
+        "clock" => {
+            println!("clock cases are sampled from real time and cannot be replayed exactly; re-running phase clock");
+            let r = clock(&parse_args());
+            for v in r.violations.values() {
+                println!("VIOLATED {}: {}", v.key, v.desc);
+            }
+            return r;
+        }
+        _ => panic!("unknown replay group {group:?}"),
+    }
+    let mut r = cx.finish();
+    if let Some(k) = v["key"].as_str() {
+        r.violations.retain(|key, _| key == k);
+    }
+    for v in r.violations.values() {
+        println!("VIOLATED {}: {}", v.key, v.desc);
+    }
+    if r.violations.is_empty() {
+        println!("no violation on this case");
+    }
+    r
+}
+
+fn main() {
+    let args = parse_args();
+    install_panic_hook();
+    if let Some(p) = &args.replay {
+        let v = read_replay(p);
+        let r = replay(&v);
+        println!("{}", serde_json::to_string_pretty(&r.to_json()).unwrap());
+        std::process::exit(if r.violations.is_empty() { 0 } else { 1 });
+    }
+    let phase = args.phase.clone().unwrap_or_else(|| "arith".into());
+    let r = match phase.as_str() {
+        "arith" => arith(&args),
+        "clock" => clock(&args),
+        _ => panic!("unknown phase"),
+    };
+    r.write(&args.out);
+}
